@@ -22,6 +22,70 @@ CLAIMED = {
             "DESIGN.md 3 C21"),
 }
 
+def _c(cat, tech, text, note, ref):
+    return (cat, tech, text, TB + note, ref)
+
+
+CLAIMED.update({
+    "C02": _c("other", "MIR dominance / origin / enum-arm analysis per commit handler",
+              "Protocol shape of every CommitHandler::commit impl in the workspace, on every path of the function: "
+              "PutMode::Create on the only write to the final path, staging+rename_if_not_exists, lock<head<write with the write only "
+              "on head's NotFound arm and the lease released on all exits, AlreadyExists/Precondition mapped to CommitConflict, and the "
+              "scheme->handler table never selecting the unsafe handler for file/s3/gs/az/memory. A necessary condition of the "
+              "property; interleavings themselves are not decided.",
+              "Atomicity of PutMode::Create / rename_if_not_exists and the lease behind CommitLock are trusted; future cancellation at an "
+              "await is not modelled; UnsafeCommitHandler is exempt by its documentation.", "DESIGN.md 3 C02"),
+    "C03": _c("other", "decision-table extraction by constrained reachability (ARMS) + lower-bound oracle",
+              "The complete 15x15 (self op, concurrent op) conflict table is extracted from check_txn and its 14 checkers; every cell "
+              "is classified (always ok / always conflict / conditional + the fields the decision reads) and compared with necessary "
+              "conditions derived from build_manifest's semantics (cells that must never be unconditionally compatible, cells whose "
+              "decision must read both footprints). The rebase wiring in commit_transaction (all concurrent transactions checked before "
+              "finish, rebased transaction and re-loaded manifest feed build_manifest) is decided by dominance.",
+              "Only lower bounds: a wrong condition inside a conditional arm is not detected; serial-replay equality is not decided.",
+              "DESIGN.md 3 C03"),
+    "C04": _c("other", "ARMS cells + dominance/origin in the row-level rebase",
+              "Row-level conflict path: the Delete/Update x Delete/Update cells depend on affected rows, data files, deletion files and "
+              "both fragment footprints with the three RETRY exits; in finish_delete_update the existing&affected intersection and its "
+              "emptiness test dominate every deletion-file write, the union is what is written, existing vectors are read from the current "
+              "dataset, and all row-level writers pass affected_rows through to the rebase.",
+              "Bitmap contents and that affected_rows lists exactly the touched rows are not decided.", "DESIGN.md 3 C04"),
+    "C07": _c("other", "origin analysis on the Restore arm + field-write inventory",
+              "On the Restore arm of both commit funnels every path from restore_old_manifest to publication stores "
+              "next_row_id = max(restored, latest); restore_old_manifest and the arm write only the reviewed Manifest fields.",
+              "Scan equality of the restored version is value-level and not decided.", "DESIGN.md 3 C07"),
+    "C18": _c("other", "expression-tree / dominance analysis of the row-id allocator",
+              "The row-id counter starts from the current manifest's next_row_id (0 only without a manifest), is only ever advanced by "
+              "`+= n` right after handing out the range counter..counter+n with the same n, is stored back on every successful path, and "
+              "every arm introducing fragments goes through it.", "Allocator monotonicity only; id preservation through updates/compaction "
+              "and resolvability are value-level.", "DESIGN.md 3 C18"),
+    "C24": _c("other", "ARMS cells + must-pass-through in build_manifest",
+              "CreateIndex vs DataReplacement/Rewrite cells are conditional on indexed fields / fragment bitmaps; the Update arm of "
+              "build_manifest prunes rewritten fragments from covering indices on every successful path; the Rewrite arm always "
+              "recalculates or remaps; bitmap growth for pure row rewrites is guarded by the field and coverage tests; sibling rule "
+              "Update{fields_modified} ~ DataReplacement for concurrent index creation.",
+              "Index contents are not decided.", "DESIGN.md 3 C24"),
+    "C33": _c("proof", "constant/const-expression agreement + constrained-reachability tables",
+              "All naming constants and templates that make V2 names parse back, sort in reverse version order and keep detached, "
+              "staging and temporary names out of discovery are checked for agreement (width 20 = digits(u64::MAX) = V2_LEN - 1 - len(ext) = "
+              "staging index; same MAX inversion on both sides; prefix is one non-digit byte > '9'; mask is the top bit), detect_scheme's "
+              "full decision table is extracted, and discovery only accepts entries that passed detect_scheme and parse_version and only "
+              "replaces the candidate under `>`.",
+              "Path::child and str::parse::<u64> semantics are trusted; behaviour on arbitrary directory contents is argued from these "
+              "constants, not executed.", "DESIGN.md 3 C33"),
+    "C37": _c("proof", "constant arithmetic + finite abstract interpretation of MIR + gated dominance",
+              "FLAG_* are distinct single bits with FLAG_UNKNOWN the next bit and can_read/can_write are exactly `< FLAG_UNKNOWN`, which "
+              "decides the predicates for all 2^64 words; apply_feature_flags resets both words and sets each flag in the required word(s) "
+              "under a guard that depends on the matching manifest content; the reader gate dominates every successful load and a writer "
+              "gate dominates publication in both commit funnels; LanceFileVersion's parse/display/number/resolve tables are interpreted "
+              "from MIR for all 6 variants.",
+              "Per-file storage versions of a table are not decided.", "DESIGN.md 3 C37"),
+    "C39": _c("other", "state-store inventory with dominating guard + ARMS cells",
+              "Every constant State stored into a MemWal anywhere in the workspace is guarded by a check of the pre-image state and is a "
+              "forward edge of Open<Sealed<Flushed<Merged; owner checks precede every mutation taking an expected owner; advance creates "
+              "generation latest+1; trim removes only Merged entries; the MemWAL conflict cells depend on the generations touched.",
+              "Histories and interleavings as such are not decided.", "DESIGN.md 3 C39"),
+})
+
 NOT_APPLICABLE = {
     "C11": "round-trip equality of Arrow data through writer, file splitting and scanner is a fact about run-time values; no structural clause is a necessary condition beyond C01/C05",
     "C12": "three-valued logic, join results and duplicate detection are value-level; the only shape clause (row-level conflict) is decided under C04",
